@@ -312,6 +312,7 @@ func Run(r *sim.R, prop string) {
 	t := r.T
 	e := &E{R: r, Prop: prop, G: &gen{r: r}}
 	r.Order = t.Weighted([]int{3, 2, 1}, "order-policy")
+	e.G.varexp = t.Chance(1, 3, "with-varexp")
 	if t.Chance(1, 6, "named-top-level") {
 		e.S = topVStruct()
 		r.Probe("unpack: top-level target type with its own Validate method")
@@ -321,7 +322,11 @@ func Run(r *sim.R, prop string) {
 	e.C = e.G.genCase(e.S, "", 0)
 	e.C.bind()
 	e.In = e.C.input()
+	e.C.refs(e.In)
 	e.Opts = []ucfg.Option{ucfg.PathSep(".")}
+	if e.G.varexp {
+		e.Opts = append(e.Opts, ucfg.VarExp)
+	}
 	if t.Chance(1, 3, "with-meta") {
 		e.Source = "file" + itoa(e.G.next()) + ".yml"
 		e.Opts = append(e.Opts, ucfg.MetaData(ucfg.Meta{Source: e.Source}))
@@ -446,7 +451,7 @@ func (e *E) pathsOfHit(h Hit) ([]string, bool) {
 				match = false
 			}
 		case "Unpack":
-			match = "U"+strings.TrimPrefix(fc.F.Kind.String(), "U") == h.ID
+			match = fc.F.Kind.String() == h.ID || fc.F.Kind.String() == "[]"+h.ID
 		}
 		if !match {
 			return
@@ -456,7 +461,7 @@ func (e *E) pathsOfHit(h Hit) ([]string, bool) {
 		}
 		paths = append(paths, fc.Path)
 		switch fc.F.Kind {
-		case KSVInt, KSInt, KSStr, KA2, KPSInt:
+		case KSVInt, KSInt, KSStr, KA2, KPSInt, KSUStr, KSUCfg, KSMap:
 			// the field's validators are also applied to each element, which is then named
 			for i := 0; i < 6; i++ {
 				paths = append(paths, fc.Path+"."+itoa(i))
@@ -568,7 +573,7 @@ func (e *E) checkTraversal(result reflect.Value, log []Hit) {
 			}
 			// the tag validator of the field itself: kinds a built-in validator can reject
 			switch fc.F.Kind {
-			case KStruct, KPStruct, KInline, KInner, KPInner, KDInt, KUStr, KUInt, KUBool, KUFloat, KUAny, KUCfg, KCfg, KSStruct, KMStruct:
+			case KStruct, KPStruct, KInline, KInner, KPInner, KDInt, KUStr, KUInt, KUBool, KUFloat, KUAny, KUCfg, KCfg, KSStruct, KMStruct, KUUint:
 				continue // struct-kind values: no built-in validator can reject them
 			}
 			want := canonHitValue(fieldValue(f))
@@ -598,6 +603,14 @@ func fieldValue(f reflect.Value) interface{} {
 }
 
 func canonHitValue(v interface{}) string {
+	switch x := v.(type) {
+	case regexp.Regexp:
+		return "regexp " + x.String()
+	case *regexp.Regexp:
+		if x != nil {
+			return "regexp " + x.String()
+		}
+	}
 	rv := reflect.ValueOf(v)
 	for rv.IsValid() && rv.Kind() == reflect.Ptr && !rv.IsNil() {
 		rv = rv.Elem()
